@@ -45,6 +45,13 @@ Definition ref_cycle (d : design St) (s : state St) : state St :=
   let s2 := ref_edge d s (active d (vals s)) in
   {| vals := propagateAll d (vals s2); pend := []; sts := sts s2; total := S (total s2) |}.
 
+Fixpoint ref_cycles (d : design St) (n : nat) (s : state St) : state St :=
+  match n with O => s | S n' => ref_cycles d n' (ref_cycle d s) end.
+
+(* Simulator.clk(n) with the reference cycle *)
+Definition ref_clk (d : design St) (n : nat) (s : state St) : state St :=
+  ref_cycles d n {| vals := propagateAll d (vals s); pend := pend s; sts := sts s; total := total s |}.
+
 (* the value a wire receives from a list of prepared updates: the LAST one for that wire, if any *)
 Fixpoint last_for (w : nat) (p : list (nat * Z)) : option Z :=
   match p with
